@@ -44,15 +44,16 @@ import (
 )
 
 type s2Case struct {
-	idx      int
-	n        int
-	tmpl     template
-	tuples   []tuple
-	order    string
-	nSinks   int
-	perTuple int
-	umask    int // -1: leave the process umask alone
-	note     string
+	idx        int
+	n          int
+	tmpl       template
+	tuples     []tuple
+	order      string
+	nSinks     int
+	perTuple   int
+	umask      int // -1: leave the process umask alone
+	umaskProbe bool
+	note       string
 }
 
 // ---- consumers -------------------------------------------------------------------------------------------------
@@ -326,12 +327,6 @@ func runS2(c *vkit.Ctx, sc s2Case) {
 				dirsOfTuple[own.id()] = map[string]bool{}
 			}
 			dirsOfTuple[own.id()][dc.dir] = true
-			want := sc.tmpl.expand(own)
-			c.Event("s2_tag_checks", 1)
-			if dc.tag != want {
-				c.Violation("s2:tag-mismatch", fmt.Sprintf("queued record of tuple %s is in a chunk tagged %q; template %q applied to its own tuple gives %q", own, dc.tag, sc.tmpl.text(), want),
-					wit(map[string]any{"tuple": own, "tuple_hex": own.id(), "tag_hex": hexs(dc.tag), "want_hex": hexs(want), "dir": dc.dir}))
-			}
 		}
 		if len(inChunk) == 1 {
 			for tid := range inChunk {
@@ -341,14 +336,34 @@ func runS2(c *vkit.Ctx, sc s2Case) {
 			mixedChunks++
 		}
 	}
+	sharedTuple := map[string]bool{} // tuples that sit in a queue directory together with another tuple
 	for _, dir := range sortedKeys(tuplesOfDir) {
 		ts := tuplesOfDir[dir]
 		if len(ts) > 1 {
 			ids := sortedKeys(ts)
+			for _, id := range ids {
+				sharedTuple[id] = true
+			}
 			a, b := ts[ids[0]], ts[ids[1]]
-			c.Violation(fmt.Sprintf("s2:shared-queue-dir:n%d:%s", sc.n, relation(a, b)),
+			c.Violation("s2:shared-queue-dir:"+relation(a, b),
 				fmt.Sprintf("queue directory %q (.id %q) holds records of %d different key tuples, e.g. %s and %s", dir, disk.dirs[dir], len(ts), a, b),
 				wit(map[string]any{"dir": dir, "dot_id": disk.dirs[dir], "tuple_a": a, "tuple_b": b, "tuple_a_hex": a.id(), "tuple_b_hex": b.id()}))
+		}
+	}
+	// tag: exactly the template applied to the record's OWN tuple (in a shared directory a wrong tag is a consequence
+	// the shared-queue-dir report already names)
+	for _, dc := range disk.chunks {
+		for _, rc := range dc.recs {
+			if !rc.ok || sharedTuple[rc.fromMsg.id()] {
+				continue
+			}
+			own := rc.fromMsg
+			want := sc.tmpl.expand(own)
+			c.Event("s2_tag_checks", 1)
+			if dc.tag != want {
+				c.Violation("s2:tag-mismatch", fmt.Sprintf("queued record of tuple %s is in a chunk tagged %q; template %q applied to its own tuple gives %q", own, dc.tag, sc.tmpl.text(), want),
+					wit(map[string]any{"tuple": own, "tuple_hex": own.id(), "tag_hex": hexs(dc.tag), "want_hex": hexs(want), "dir": dc.dir}))
+			}
 		}
 	}
 	for _, tid := range sortedKeys(dirsOfTuple) {
@@ -380,11 +395,7 @@ func runS2(c *vkit.Ctx, sc s2Case) {
 		}
 	}
 	if missing > 0 || dup > 0 {
-		cls := "-"
-		if missT != nil {
-			cls, _ = fam.pairClass(missT)
-		}
-		c.Violation("s2:records-not-queued:"+cls,
+		c.Violation("s2:records-not-queued",
 			fmt.Sprintf("%s: with a stalled consumer %d of %d records are in no queued chunk after shutdown (first: tuple %s), %d are in more than one", caseName, missing, len(plan), missT, dup),
 			wit(map[string]any{"first_missing_tuple": missT}))
 	}
@@ -438,9 +449,18 @@ func runS2(c *vkit.Ctx, sc s2Case) {
 	for k, ts := range tuplesOfConsumer {
 		if len(ts) > 1 {
 			ids := sortedKeys(ts)
+			explained := true
+			for _, id := range ids {
+				if !sharedTuple[id] {
+					explained = false
+				}
+			}
+			if explained {
+				continue // the chunks were already mixed in one directory before the restart
+			}
 			a, b := ts[ids[0]], ts[ids[1]]
-			c.Violation(fmt.Sprintf("s2:restart:shared-pipeline:n%d:%s", sc.n, relation(a, b)),
-				fmt.Sprintf("after the restart one re-created pipeline (consumer #%d) delivered chunks of %d different key tuples, e.g. %s and %s", k, len(ts), a, b),
+			c.Violation("s2:restart:shared-pipeline:"+relation(a, b),
+				fmt.Sprintf("after the restart one re-created pipeline (consumer #%d) delivered chunks of %d different key tuples, e.g. %s and %s, that were queued in separate directories", k, len(ts), a, b),
 				wit(map[string]any{"tuple_a_hex": a.id(), "tuple_b_hex": b.id()}))
 		}
 	}
@@ -460,7 +480,7 @@ func runS2(c *vkit.Ctx, sc s2Case) {
 		t := left[tid]
 		dir := leftDir[tid]
 		cls := t.traitClass()
-		if sc.umask >= 0 {
+		if sc.umaskProbe {
 			cls = "dir-mode-" + fmt.Sprintf("%04o", after.modes[dir])
 		}
 		c.Violation("s2:restart:not-reattached:"+cls,
@@ -484,24 +504,23 @@ func runS2(c *vkit.Ctx, sc s2Case) {
 			c.Event("s2_consumed_series", 1)
 		}
 	}
-	if mixedChunks == 0 {
+	{
 		for _, tid := range sortedKeys(chunksOfTuple) {
 			want := float64(chunksOfTuple[tid])
-			if _, isLeft := left[tid]; isLeft {
-				continue // already reported as not re-attached
+			if _, isLeft := left[tid]; isLeft || sharedTuple[tid] {
+				continue // already reported as not re-attached / as sharing a directory
 			}
 			c.Event("s2_label_checks", 1)
 			if got[tid] != want {
 				t, _ := tupleFromID(tid)
-				cls, _ := fam.pairClass(t)
-				c.Violation("s2:restart:consumed-under-other-labels:"+cls,
+				c.Violation("s2:restart:consumed-under-other-labels",
 					fmt.Sprintf("%g chunks of key tuple %s were queued and all were consumed after the restart, but process_buffer_consumed_chunks_total{key_*=%s} is %g", want, t, t, got[tid]),
 					wit(map[string]any{"tuple": t, "tuple_hex": tid, "queued_chunks": want, "consumed_under_its_labels": got[tid], "all_series": fmtSeries(got)}))
 			}
 		}
 	}
 	for tid, v := range got {
-		if _, ok := chunksOfTuple[tid]; !ok && v > 0 && mixedChunks == 0 {
+		if _, ok := chunksOfTuple[tid]; !ok && v > 0 && len(sharedTuple) == 0 {
 			t, _ := tupleFromID(tid)
 			c.Violation("s2:restart:consumed-under-foreign-labels", fmt.Sprintf("%g chunks were consumed under key labels %s, a tuple that queued nothing", v, t), wit(map[string]any{"labels_hex": tid}))
 		}
